@@ -12,706 +12,749 @@ Definition show_fres (r : fres) : string :=
   end.
 Definition check (rs : list rune) : string := digest (show_fres (format_res rs)).
 Definition full (rs : list rune) : string := show_fres (format_res rs).
-Eval vm_compute in ("<<<M165>>>" ++ check (runes_of_ascii "packet falsey { char[7
-    ]
-Foo @calculatedFrom( ""CRC32"" ) , @tag(
-    //
-    10)	u8 Packet`" ++ [233]%N ++ runes_of_ascii "` ,repeat  stringy
-,
-@lengthOf( // a // b
-float)tag { repeat
-    u8x {
-int16 charz@lengthOf(trueish ) , //	t
-repeat  string calculatedFrom,
-charz @calculatedFrom(  ""a\""b""
-)	`line1
-line2`
-,
-},u64
-    MetaDataX @calculatedFrom( """ ++ [128512]%N ++ runes_of_ascii """
-    ) `" ++ [233]%N ++ runes_of_ascii "`
-    ,rootA
-    // packet A { u8 x, }
-    {
-    repeat	u64 BodyLength
-`" ++ [233]%N ++ runes_of_ascii "` , pack @calculatedFrom( //x
-""{,}"" )
-    `" ++ [28040; 24687; 31867; 22411]%N ++ runes_of_ascii "` ,repeat // c
-x charz,
-},
-    // a // b
-    char[] packetx, }	, // `tick` ""quote"" 'q'
-calculatedFrom , u x_y_z
-,repeat	int	i64_ ,@leftPad (
-    ' '
-)u32 T @calculatedFrom( ""{,}"" )
-, repeat
-    metadata , } root packet
-chars
-{ char[	65535
-]  pack @lengthOf( As ) `tab	here` , char[
-255] msg_type `// not a comment`
-    ,@calculatedFrom(
-    ""// no comment"" ) @tag( //	t
-0 ) @tag(10 ) repeat Header {
-    char[]
-// @lengthOf(
-// " ++ [27880; 37322]%N ++ runes_of_ascii "
-i64_,repeat T//x
-`` ,match uint8x	as i64_ {
-00// `tick` ""quote"" 'q'
-: _x ,	65535: //
-Z9_,
-""1""
-: u8x ,
-007 : Z9_
-, 255
-:
-matchKey
-""1"" :
-crc , } , } ,
-    @calculatedFrom(	""packet""	) match int as x_y_z{ 0123456789 :	Logon
-    // @lengthOf(
-    ,
-    //	t
-    [ 0123456789, ""it's"" ]
-:
-int
-    , [""a	b"" , ""CRC32"" , 0, 4294967296 , """"	] :
-pack , 0 : u , } , match // @lengthOf(
-string_ as
-int
-{ 0: repeatCount [ ""abc""
-    ] : // " ++ [27880; 37322]%N ++ runes_of_ascii "
-float 007: msg_type , [
-    ""a\""b""	]:
-charz , } , i16 MetaDataX`say ""hi""`, repeat u `tab	here` , repeat falsey  { repeat i8 lengthOf `a\` ,
-    repeatCount@lengthOf( o)
-    `{ , }`,}, }packet rootA
-    { calculatedFrom//	t
-@calculatedFrom( ""x y"") ,
-char Pad @calculatedFrom( ""a\""b"" ) `" ++ [233]%N ++ runes_of_ascii "`
-    , @leftPad
-( '\x00' )	repeat float64 tag ,
+Eval vm_compute in ("<<<M1537>>>" ++ check (runes_of_ascii "packet metadata {
+    repeat f64 Foo,
+    repeat Logon f32a `
+    `,
+    @calculatedFrom(""1"")
+    repeat uint8 calculatedFrom `u8 x,`,
+    char[] packetx,// packet A { u8 x, }
+    @calculatedFrom(""abc"")
+    Pad @lengthOf(msg_type) `line1
+    line2`,
+    @rightPad(' ')
+    tag `" ++ [233]%N ++ runes_of_ascii "`,
+    @tag(10)
+    u8x @calculatedFrom(""CRC32""),
+    match metadata as msg_type {
+        [0123456789, ""\n""] : options1,
+        ""\n"" : float,
+    },
+}
+
+packet MetaDataX {
+    string string_ `doc`,
+    @rightPad('0')
+    zchar[00] zchar `a\`,
+}
+
+options {
+    leftPad = 0
+    float = 4294967296;
+}// `tick` ""quote"" 'q'
+
+root packet body {
+    @calculatedFrom(""1"")
+    @lengthOf(int)
+    match float as Z9_ {
+        // packet A { u8 x, }
+        // trailing space 
+        42 : x,
+        ""packet"" : matchKey,
+        """ ++ [28040; 24687]%N ++ runes_of_ascii """ : o,
+        255 : float,
+    },
+    @tag(0123456789)
+    match calculatedFrom as trueish {
+        [""packet"", ""`tick`"", """ ++ [233]%N ++ runes_of_ascii "t" ++ [233]%N ++ runes_of_ascii """] : MetaDataX,
+        4294967296 : trueish,
+        3 : i64_,
+        0123456789 : f32a,
+        [
+            7, 10, ""CRC32"", ""x y"", ""\n"",
+            ""CRC32"", ""`tick`""
+        ] : body,
+    },
+    char[1] Foo,
+    @rightPad(' ')
+    @calculatedFrom(""a	b"")
+    repeat string_ {
+        repeat Logon,
+        Z9_ i8i8,
+        match Z9_ as A {
+            [42] : Logon,
+            [
+                1, 4294967296, 0, ""CRC32"", ""a\""b"",
+                ""\" ++ [233]%N ++ runes_of_ascii """
+            ] : roots,
+            ""a\""b"" : MetaDataX,
+            255 : _x,
+            65535 : rootA,
+        },
+        match _x as Foo {
+            [
+                255, """ ++ [28040; 24687]%N ++ runes_of_ascii """, ""CRC32"",
+                """ ++ [233]%N ++ runes_of_ascii "t" ++ [233]%N ++ runes_of_ascii """, ""abc""
+            ] : len,
+            ""a\\"" : Pad,
+            0 : falsey,
+            3 : u128,
+        },// a // b
+    },
+    repeat options1 int `{ , }`,
+}")).
+Eval vm_compute in ("<<<M123>>>" ++ check (runes_of_ascii "
+packet _x{  leftPad `it's`
+    , match Logon as
+    matchKey { ""packet"" :  stringy,3
+: u
+    ,//
+""1"" : Pad }
+,  float32 Z9_ @lengthOf( i8i8	)
+    `" ++ [233]%N ++ runes_of_ascii "`
     // " ++ [27880; 37322]%N ++ runes_of_ascii "
-    @calculatedFrom( ""1"") repeat Foo ,  } // " ++ [27880; 37322]%N)).
-Eval vm_compute in ("<<<M382>>>" ++ check (runes_of_ascii "options {
-	StringPrefixLenType = u16;
-	ArrayPrefixLenType = u16;
-}
-
-packet SampleBinary {
-    uint16 MsgType `" ++ [28040; 24687; 31867; 22411]%N ++ runes_of_ascii "`,
-    u16 BodyLenght @lengthOf(Body) `" ++ [28040; 24687; 20307; 38271; 24230]%N ++ runes_of_ascii "`,
-    match MsgType as Body {
-        1 : Logon,
-        2 : Logout,
-        3 : Heartbeat,
-        4 : RiskControlRequest,
-        5 : RiskControlResponse,
-    },
-        @calculatedFrom(""CRC32"")
-    u32 Ckecksum `" ++ [26657; 39564; 21644]%N ++ runes_of_ascii "`,
-}
-
-packet Logon {
-     @leftPad('0')
-    char[10] UserName `" ++ [29992; 25143; 21517]%N ++ runes_of_ascii "`,
-    string Password `" ++ [23494; 30721]%N ++ runes_of_ascii "`,
-    uint64 ClientId `" ++ [23458; 25143; 31471]%N ++ runes_of_ascii "ID`,
-    u16 HeartbeatInterval `" ++ [24515; 36339; 38388; 38548]%N ++ runes_of_ascii "`,
-}
-
-packet Logout {
-      @rightPad('0')
-    char[10] UserName `" ++ [29992; 25143; 21517]%N ++ runes_of_ascii "`,
-    uint64 ClientId `" ++ [23458; 25143; 31471]%N ++ runes_of_ascii "ID`,
-}
-
-packet Heartbeat {
-}
-
-packet RiskControlRequest {
-    string UniqueOrderId `" ++ [21807; 19968; 35746; 21333; 21495]%N ++ runes_of_ascii "`,
-    char[16] ClOrdID `" ++ [23458; 25143; 35746; 21333; 21495]%N ++ runes_of_ascii "`,
-    char[3] MarketID `" ++ [24066; 22330]%N ++ runes_of_ascii "id`,
-    char[12] SecurityID `" ++ [35777; 21048; 20195; 30721]%N ++ runes_of_ascii "`,
-    char Side `" ++ [20080; 21334; 26041; 21521]%N ++ runes_of_ascii "`,
-    char OrderType `" ++ [35746; 21333; 31867; 22411]%N ++ runes_of_ascii "`,
-    u64 Price `" ++ [20215; 26684]%N ++ runes_of_ascii "`,
-    u32 Qty `" ++ [25968; 37327]%N ++ runes_of_ascii "`,
-    repeat string ExtraInfo `" ++ [38468; 21152; 20449; 24687]%N ++ runes_of_ascii "`,
-    repeat SubOrder {
-    		char[16] ClOrdID `" ++ [23376; 35746; 21333; 21495]%N ++ runes_of_ascii "`,
-    		u64 Price `" ++ [23376; 35746; 21333; 20215; 26684]%N ++ runes_of_ascii "`,
-    		u32 Qty `" ++ [23376; 35746; 21333; 25968; 37327]%N ++ runes_of_ascii "`,
-    	},
-}
-
-packet RiskControlResponse {
-    string UniqueOrderId `" ++ [21807; 19968; 35746; 21333; 21495]%N ++ runes_of_ascii "`,
-    i32 Status `" ++ [29366; 24577]%N ++ runes_of_ascii "`,
-    string Msg `" ++ [32467; 26524; 20449; 24687]%N ++ runes_of_ascii "`,
-    repeat Detail,
-}
-
-packet Detail {
-    string RuleName `" ++ [35268; 21017; 21517; 31216]%N ++ runes_of_ascii "`,
-    u16 Code `" ++ [21407; 22240; 20195; 30721]%N ++ runes_of_ascii "`,
-}")).
-Eval vm_compute in ("<<<M174>>>" ++ check (runes_of_ascii "
-root packet asx { leftPad
-    {u128 @calculatedFrom( ""1""
-) , //x
-}
-, lengthOf // packet A { u8 x, }
-@calculatedFrom( """ ++ [128512]%N ++ runes_of_ascii """ ) `a\`
-, i64 // `tick` ""quote"" 'q'
-Packet @lengthOf(  calculatedFrom ) , @calculatedFrom(
-""" ++ [233]%N ++ runes_of_ascii "t" ++ [233]%N ++ runes_of_ascii """ ) stringy	a1 `doc` // `tick` ""quote"" 'q'
-, @rightPad
-    (
-    // a // b
-    )
-    // c
-    a1
-    `a\`
-,  char
-Header @lengthOf(
-    x )`say ""hi""`, uint8x
-Z9_ `tab	here` ,  }
-options
-    {
-    calculatedFrom// packet A { u8 x, }
-= 0}	packet metadata {@leftPad ( '\x00'	) f32
-    pack
-//	t
-//
-, @tag( 65535 ) u32 uint8x @lengthOf( repeatCount) ``,MetaDataX	{ repeat options1 , match
-matchKey as len { """ ++ [128512]%N ++ runes_of_ascii """:
-    u8x	, 1 :
-zchar
-, /// triple
-[ ""a\\""
-    ,
-    ""x y"" ] : charz 0
-    :
-    x_y_z
-    //
-    ,[// trailing space 
-4294967296// `tick` ""quote"" 'q'
-]: asx  , [/// triple
-""a\""b"" , ""\n"" , ""\" ++ [233]%N ++ runes_of_ascii """ ,10 ] : _x ,
-    }	, uint8  metadata
-@lengthOf(float
-) ,
-zchar[
-    255] i8i8 , },
-    }root  packet
-f32a
-    { }")).
-Eval vm_compute in ("<<<M1341>>>" ++ check (runes_of_ascii "options {
-    StringPrefixLenType = u64;
-    ArrayPrefixLenType = u32;
-    FixedStringPadFromLeft = false;
-}
-packet Party {
-    zchar[7] OrderId,
-    InTail6 {
-        repeat char[1] msgKind,
-        char[3] Tail,
-        char[3] Flags,
-        i16 tag7,
-    },
-    @rightPad('0') char[12] clOrdID,
-}
-packet Quote {
-    @leftPad('0') char[11] price,
-    repeat InCount7 {
-        i32 x,
-        Party,
-        u8 Ref,
-        u8 tag7,
-    },
-    char[] seqNo,
-    Party,
-}
-packet Logon {
-    @rightPad('\x00') char[5] Note,
-    i16 sym,
-    InPrice72 {
-        char[9] Ref,
-        zchar[1] venue,
-    },
-    char[] clOrdID,
-}
-root packet Reject {
-    repeat Logon,
-    @leftPad(' ') char[4] seqNo,
-    zchar[5] Acct,
-    u32 x,
-    u16 f1 @lengthOf(Body),
-    match x as Body {
-        [169, 74] : Quote,
-        45 : Party,
-        7 : Logon,
-    },
-}
-")).
-Eval vm_compute in ("<<<M1380>>>" ++ check (runes_of_ascii "root packet packetx {
-    @tag(0)
-    char[00] Z9_,
-    // a // b
-    falsey {
-        match x as options1 {
-            [42, 007] : uint8x,
-        },
-        uint8 falsey `crlf
-        line`,
-    },
-    f64 Pad,
-    @tag(7)
-    string Logon `a\`,
-    @lengthOf(lengthOf)
-    char[3] calculatedFrom @calculatedFrom(""" ++ [28040; 24687]%N ++ runes_of_ascii """),
-    char[] T,//x
-    @tag(42)
-    @leftPad()
-    char[] trueish @calculatedFrom(""`tick`""),
-    match uint8x as pack {
-        [1, ""abc"", ""1"", ""packet"", ""a\""b""] : As,
-        """ ++ [28040; 24687]%N ++ runes_of_ascii """ : trueish,
-    },
-}
-
-packet charz {
-    repeat Z9_ {
-        Pad {
-            match len as string_ {
-                // a // b
-                4294967296 : msg_type,
-                [""// no comment""] : u,
-            },
-        },
-        zchar[65535] As @lengthOf(string_),
-    },
-}")).
-Eval vm_compute in ("<<<M1741>>>" ++ check (runes_of_ascii "
-
-  options{ leftPad	// packet A { u8 x, }
-  	= 
-0
-
-    ;
-
-    //
-	  Logon
-	= char// `tick` ""quote"" 'q'
-    i64_	=
-'\x00' ;} options {crc 
-=	i32
-
-; matchKey =
-    255
-    leftPad
-=
-' '
-	;
-metadata
-= 42  // trailing space 
-	  ;
-packetx=
-10
-    }
-root 
-packet  //
-    A
-
-{ @calculatedFrom( ""x y""// c
-	) 	 /// triple
-	zchar[ 00
-	]f32a
-
-, @tag(  255
-
-)	zchar[0123456789
-    ] a1
-	@lengthOf( As
-	)	`" ++ [28040; 24687; 31867; 22411]%N ++ runes_of_ascii "`
-	/// triple
-
-, int16
-body
-, 	 // `tick` ""quote"" 'q'
-	  uint64 x
-
-@calculatedFrom( 
-""1"" 
+    , @tag( 3 )match
     //	t
-    // " ++ [128512]%N ++ runes_of_ascii " emoji
-	) 	 // packet A { u8 x, }
-	  `line1
-line2`  ,  @lengthOf(
-    Logon )
-char[
-	0	// packet A { u8 x, }
-	] float@calculatedFrom(
-""abc"" 
-)
-
-    ,	} MetaData
-    u128
-
-    {	}
-
-")).
-Eval vm_compute in ("<<<M23>>>" ++ check (runes_of_ascii "MetaData lengthOf
-{ }
-MetaData falsey { // " ++ [27880; 37322]%N ++ runes_of_ascii "
-falsey i64_
-`
-`	, zchar[ 255	] u `two words` ,	BodyLength int , matchKey	i8i8 `crlf
-line` ,uint8x	asx ,
-char[]options1 ,	}packet
-    asx  {	@lengthOf( o
-)@calculatedFrom(//
-""\n"" ) char[] lengthOf  `two words`// c
+    As as Pad{
+"""" : chars
+, ""x y"" //
+: i64_	,  } ,  @calculatedFrom(""it's"" // c
+) @leftPad ( ' '
+) zchar[ 0123456789	] falsey , match	A as packetx
+{ [ 42]:
+matchKey // c
+, }// `tick` ""quote"" 'q'
+,@leftPad
+( ' ' )
+    match x
+    // c
+    as a1 { ""packet"" //x
+:
+    a1 , 10 : pack""{,}"" :  u8x// a // b
+, [ 007
+,00// trailing space 
+]
+:trueish ,
+    ""x y"" :pack //	t
 ,
-    BodyLength `" ++ [233]%N ++ runes_of_ascii "` ,repeat u8x len // " ++ [27880; 37322]%N ++ runes_of_ascii "
-`doc`
-, int
-@calculatedFrom(
-""a\\""
-    ) `line1
-line2`,@lengthOf( MetaDataX
-)
-Packet packetx
-    // `tick` ""quote"" 'q'
-    , a1 {
-    match Logon	as
+""" ++ [233]%N ++ runes_of_ascii "t" ++ [233]%N ++ runes_of_ascii """
+:
+matchKey , } , @leftPad ( '0'
+) uint8x u
+    ,	zchar[
+    3 // a // b
+]
+    //	t
+    u ``
+    , @rightPad (
+    ' ') repeat _x
+`` , } MetaData Foo
+    {a1 Z9_ ,
+options1 T ,u32 u8x
+`crlf
+line`, metadata falsey,lengthOf
+x_y_z ,
+    } packet calculatedFrom { @tag( 3 ) string A,
+    match leftPad as a1	{//	t
+0123456789: calculatedFrom , }
+    ,
+    match crc//
+as
+    body {
+    00 : _x, } , o @calculatedFrom(	""x y"" )
+//
 // " ++ [128512]%N ++ runes_of_ascii " emoji
+,  } packet T { }  packet Logon { @leftPad
+(// @lengthOf(
+'\x00' )
+As @calculatedFrom(
+""a	b"" ) `line1
+line2`	, pack lengthOf // `tick` ""quote"" 'q'
+, } // `tick` ""quote"" 'q'")).
+Eval vm_compute in ("<<<M128>>>" ++ check (runes_of_ascii "root
+packet // " ++ [27880; 37322]%N ++ runes_of_ascii "
+crc
+    {	@lengthOf(	As
+)@calculatedFrom(""\" ++ [233]%N ++ runes_of_ascii """
+    ) zchar[ 4294967296 ]MetaDataX `doc` ,/// triple
+rootA @calculatedFrom( ""it's"" )	,@tag( 65535
+    ) @tag( // c
+7 )@tag( 00
+//
+// c
+) len @lengthOf( A ) `two words` ,
+// trailing space 
+// " ++ [128512]%N ++ runes_of_ascii " emoji
+string	rootA@lengthOf( pack
+// trailing space 
+//	t
+) ,
+// " ++ [128512]%N ++ runes_of_ascii " emoji
+// trailing space 
+repeat zchar ,
+@calculatedFrom( ""abc"" )@leftPad ('\x00' ) @rightPad
+( )match x_y_z
+    as Z9_{
+""it's""
+    :
+Logon//x
+, ""x y"" : Packet,""abc""
+: trueish 4294967296 // @lengthOf(
+:
+    repeatCount """ ++ [128512]%N ++ runes_of_ascii """:  x_y_z
+} , char[ 10 // @lengthOf(
+]
+    stringy	`it's`
+, @leftPad (
+'\x00' )
+rootA @lengthOf(  i64_  )
+    , } MetaData falsey {
+Packet repeatCount `tab	here` ,
+}MetaData string_ {
+    float64 roots `line1
+line2` , char
+As //
+`
+` , zchar[ 65535 ]falsey`a\` ,A
+    T , _x metadata, } packet
+_x // packet A { u8 x, }
+{zchar[255 ] string_@lengthOf(
+//	t
+// @lengthOf(
+u128 ) `{ , }`	,
+}root packet Packet
+    {repeat // " ++ [128512]%N ++ runes_of_ascii " emoji
+lengthOf , }")).
+Eval vm_compute in ("<<<M70>>>" ++ check (runes_of_ascii "packet pack { @lengthOf(
+Foo
+    // c
+    )
+    asx @lengthOf( _x ) /// triple
+, u8	x_y_z `two words` ,repeat
+    zchar[0
+    ] roots `
+`
+    // `tick` ""quote"" 'q'
+    , lengthOf @calculatedFrom( ""abc""
+) ,
+@tag( 3 ) @rightPad	( ' ')@calculatedFrom(
+""1""
+//x
+// " ++ [27880; 37322]%N ++ runes_of_ascii "
+)
+repeat uint64 i64_ // trailing space 
+`say ""hi""` // @lengthOf(
+,	@tag( 007 ) match roots as float {	""a	b""
+    : lengthOf,
+    [1, // @lengthOf(
+""\n""
+,
+""a\""b"" , ""\" ++ [233]%N ++ runes_of_ascii """ ,  ""1"",
+    42 ]: msg_type, """ ++ [128512]%N ++ runes_of_ascii """: Foo} ,T//x
+{
+    match
+Header
+as trueish
+{ [
+// `tick` ""quote"" 'q'
+// @lengthOf(
+0 , 3// @lengthOf(
+, ""{,}"" ,
+""1"" ,
+00  ,
+0123456789
+,
+    ""// no comment"" ]
+:As
+    , }
+    , } , repeat char[
+    10
+]
+o `
+`
+, @calculatedFrom(
+    //
+    ""`tick`"" //x
+) repeat crc {
+    repeatCount o ,
+    u8x
+As, } ,
+} packet pack{@calculatedFrom( """ ++ [233]%N ++ runes_of_ascii "t" ++ [233]%N ++ runes_of_ascii """ )  u32 f32a
+,
+}
+    MetaData float
+{u32 options1 , }
+packet
+f32a { }
+")).
+Eval vm_compute in ("<<<M280>>>" ++ check (runes_of_ascii "packet	crc{@lengthOf( stringy// a // b
+) @leftPad (
+'0'
+    ) @calculatedFrom(
+""packet"" )
+repeat char[
+    // c
+    3]  i64_ // a // b
+, match
+    options1	as o { 255 :msg_type
+,
+    ""\n"": MetaDataX , 42: msg_type """ ++ [128512]%N ++ runes_of_ascii """
+    : lengthOf,""// no comment"" :falsey , }
 /// triple
-len {	4294967296
-:matchKey , [
-1  , 10 , 10 ,
-""{,}"" , """ ++ [233]%N ++ runes_of_ascii "t" ++ [233]%N ++ runes_of_ascii """ , 0123456789]: leftPad ,  3
-    :msg_type ,
+// trailing space 
+, @leftPad( )
+    @lengthOf( A
+    ) @calculatedFrom( ""x y"" ) uint32// a // b
+charz `doc`, len ,@calculatedFrom( ""// no comment"" ) match _x
+    //x
+    as i64_	{ 65535
+    :
+    // @lengthOf(
+    u8x , } ,
+char[]
+    a1 // @lengthOf(
+, Foo { u8x{ char[]
+Logon
+    `// not a comment`	,}, match metadata as u128 { // trailing space 
+42 : u8x
+, 65535 : f32a
+    } //x
+, asx// " ++ [128512]%N ++ runes_of_ascii " emoji
+@lengthOf( matchKey  ) ,} , roots @calculatedFrom( // packet A { u8 x, }
+""a\""b"" )
+,	zchar[
+7] int	, repeat pack	trueish ,
+    }
+")).
+Eval vm_compute in ("<<<M1692>>>" ++ check (runes_of_ascii "root packet asx {
+    // `tick` ""quote"" 'q'
+    f32a,
+    @calculatedFrom(""abc"")
+    zchar[65535] metadata `
+        `,
+    @calculatedFrom(""CRC32"")
+    Header `doc`,
+    match f32a as msg_type {
+        [""\n""] : charz,
+        // @lengthOf(
+        0123456789 : pack,
+        //x
+        [
+            4294967296, ""packet"", """", ""`tick`"", ""CRC32"",
+            ""\n"", ""it's"", ""it's""
+        ] : charz,
+        42 : leftPad,
+        [
+            255, 7, ""packet"", ""{,}"", ""\" ++ [233]%N ++ runes_of_ascii """,
+            ""1"", ""1""
+        ] : msg_type,
+        [""" ++ [128512]%N ++ runes_of_ascii """] : i64_,
+    },
+}
+
+packet body {
+}
+
+root packet i64_ {
+    uint16 Header @calculatedFrom(""" ++ [233]%N ++ runes_of_ascii "t" ++ [233]%N ++ runes_of_ascii """) ``,
+    float64 string_ @calculatedFrom(""`tick`""),
+    repeat zchar[1] packetx `it's`,
+}//	t")).
+Eval vm_compute in ("<<<M216>>>" ++ check (runes_of_ascii "// " ++ [27880; 37322]%N ++ runes_of_ascii "
+packet chars {match
+charz
+as
+    // trailing space 
+    A // trailing space 
+{0123456789: rootA ,
+    42
+:
+    x , ""1"" :Logon , 7 :u , ""\n"" : packetx , }, char[]MetaDataX
+@calculatedFrom(""""
+) `" ++ [233]%N ++ runes_of_ascii "`
+    // trailing space 
+    ,	@leftPad( ' ' )  char[] Foo,
+    crc , f64 string_ , // " ++ [128512]%N ++ runes_of_ascii " emoji
+char[]
+packetx,i64 u8x@lengthOf(  stringy ) `// not a comment`, repeat zchar {
+repeat
+A _x , lengthOf	@lengthOf( u8x
+) ,	match A as matchKey { 3 :Z9_ , ""// no comment"": As 00 //x
+:
+i64_ ,
+// a // b
+// " ++ [128512]%N ++ runes_of_ascii " emoji
+""a\\""  :i64_ , [ ""`tick`""/// triple
+] : T ,
+    }
+,
+// a // b
+// packet A { u8 x, }
+uint32 T
+`" ++ [28040; 24687; 31867; 22411]%N ++ runes_of_ascii "`
+    , }
+    , uint64
+    /// triple
+    charz
+, }")).
+Eval vm_compute in ("<<<M1392>>>" ++ check (runes_of_ascii "
+options
+
+    {LittleEndian
+	=
+
+false;
+
+    ArrayPrefixLenType 
+= 
+u8 ;FixedStringPadFromLeft=	true
+;  FixedStringPadChar
+    ='0' ;
+    }packet Heartbeat
+    {
+
+string
+lastPx , uint8	Qty
+	,  i64 Acct ,
+    char[ 4]
+
+    Ref, } packet  Fill { uint8 Ref, Heartbeat ,
+	f32
+OrderId	, repeat 
+f32 x
+, 
+}
+
+root
+
+    packet Order{
+zchar[ 
+2
+]
+
+OrderId, zchar[	2]  Acct,	zchar[ 1
+    ]
+    Note ,
+
+    zchar[ 
+9
+]
+
+Qty,
+
+string  price  ,string tag7 
+,  u32
+x,match x  as Body {
+123
+	:
+
+    Fill , 112 : Heartbeat
+
+, 
+},
+
+u32 
+seqNo
+
+@calculatedFrom(
+
+    ""CRC32"" 
+) ,
+    }")).
+Eval vm_compute in ("<<<M1736>>>" ++ check (runes_of_ascii "// top
+packet A {
+    // c2
+    u8 a,// c5
+}// c6a
+
+// c6b
+packet B {
+    // c9
+    u16 b,
+}// c13a
+
+// c13b
+packet C {
+    // c16
+    u32 c,// c19a
+}
+
+// c20
+root packet M {
+    u16 Kc,
+    // c27
+    u16 Kb,// c30
+    u16 Ka,
+    match Kc as X {
+        // c38
+        9 : A,
+        10 : B,
+    },
+    match Kb as Y {
+        2 : C,
+        // c57
+        1 : A,
+        // c61a
+    },// c63a
+    // c63b
+    match Ka as Z {
+        // c68
+        1 : B,
+        // c72
+    },// c74
+    A,// c76
+    B,
+    // c78
+    C,// c80
+}")).
+Eval vm_compute in ("<<<M340>>>" ++ check (runes_of_ascii "packet leftPad//
+{@rightPad () repeat chars	{crc /// triple
+pack  ,
+} ,
+@calculatedFrom( """ ++ [28040; 24687]%N ++ runes_of_ascii """ )@lengthOf(options1  )@tag( 65535 ) Foo,match
+matchKey
+    as // " ++ [128512]%N ++ runes_of_ascii " emoji
+tag	{
+    // c
+    [ ""{,}"",
+""""
+, ""`tick`"" ,
+3 ,""it's"",  """ ++ [128512]%N ++ runes_of_ascii """	,
+""it's""] :As
+    , [
+/// triple
+//	t
+""x y""]
+    //x
+    :
+chars,""" ++ [233]%N ++ runes_of_ascii "t" ++ [233]%N ++ runes_of_ascii """	:uint8x,4294967296:	packetx
+""// no comment""
+:
+calculatedFrom , }
+,  @calculatedFrom( ""// no comment""// @lengthOf(
+)
+char[// trailing space 
+007 ]	f32a ,} // a // b")).
+Eval vm_compute in ("<<<M1193>>>" ++ check (runes_of_ascii "// top
+MetaData
+    // c0
+uint8x // c1
+{ char[]
+    // c3
+f32a // c4a
+  // c4b
+`// not a comment`
+    // c5
+, // c6a
+  // c6b
+float32 // c7
+roots
+    // c8
+, // c9
+char[ // c10a
+  // c10b
+7 // c11
+] // c12
+u8x // c13
+, // c14a
+  // c14b
+zchar[
+    // c15
+10
+    // c16
+] // c17
+f32a // c18
+, // c19a
+  // c19b
+u64
+    // c20
+pack // c21a
+  // c21b
+, u16
+    // c23
+pack // c24a
+  // c24b
+,
+    // c25
+}
+    // c26
+")).
+Eval vm_compute in ("<<<M1897>>>" ++ check (runes_of_ascii "
+options
+{  LittleEndian	=true ;  StringPrefixLenType
+
+    =
+u16
+	; FixedStringPadChar
+    =' ' ;
+}
+
+    packet  Logon { @leftPad
+	(
+
+'0'
+
+    )
+    char[ 
+10]
+
+tag7 ,
+
+} root
+packet Ack
+	{
+int32 
+Px
+
+    ,  uint16 count , 
+string Qty
+, 
+string
+
+    OrderId , string	Flags , u8
+
+    x
+    ,  match	x  as 
+Body	{ [
+
+    58
+,169
+]
+	: Logon
+    , } , 
+}
+")).
+Eval vm_compute in ("<<<M178>>>" ++ check (runes_of_ascii "packet // c
+As
+{@tag( 42
+    )
+    repeat Logon	uint8x
+// " ++ [128512]%N ++ runes_of_ascii " emoji
+//
+``, repeat int32
+    x_y_z ,char[7 // trailing space 
+]	pack , repeat string crc
+/// triple
+// c
+`// not a comment`
+, @calculatedFrom(
+    ""`tick`""
+    ) @tag( 1 )match
+    // @lengthOf(
+    chars as
+MetaDataX { 4294967296 : // @lengthOf(
+T ,
+} /// triple
+,
+}
+")).
+Eval vm_compute in ("<<<M1277>>>" ++ check (runes_of_ascii "// top
+options
+    // c0
+{
+    // c1
+LittleEndian // c2
+=
+    // c3
+true
+    // c4
+;
+    // c5
+}
+    // c6
+root // c7a
+  // c7b
+packet P // c9a
+  // c9b
+{ u16
+    // c11
+a // c12
+, // c13
+u32 // c14a
+  // c14b
+Sum
+    // c15
+@calculatedFrom( ""CRC32"" ) // c18a
+  // c18b
+,
+    // c19
+} // c20a
+  // c20b
+")).
+Eval vm_compute in ("<<<M1316>>>" ++ check (runes_of_ascii "  packet
+
+    MDSnapshotZZ	{	u8
+
+a 
+, }  packet
+    OrderACK  { u16
+b, }packet
+	HTTPServerInfo	{
+string
+s
+
+    ,
+}	root
+    packet  FIXMsg
+    { u8
+KType
+,MDSnapshotZZ  , repeat
+
+    OrderACK,  match 
+KType as Body{1 :
+
+HTTPServerInfo  ,	2
+
+:OrderACK	,
+
+}
+
+    ,}")).
+Eval vm_compute in ("<<<M234>>>" ++ check (runes_of_ascii "//	t
+options{
+    chars=true As= char[]
+// trailing space 
+// " ++ [128512]%N ++ runes_of_ascii " emoji
+; /// triple
+x_y_z	= 7; // " ++ [27880; 37322]%N ++ runes_of_ascii "
+i8i8 = true packetx = /// triple
+' ' } root packet	x_y_z {repeat
+    char[
+    42
+    //x
+    ] //	t
+Pad,
+    }
+// packet A { u8 x, }
+")).
+Eval vm_compute in ("<<<M249>>>" ++ check (runes_of_ascii "
+packet
+rootA {
+} // trailing space 
+packet f32a //	t
+{ match
+zchar as zchar
+    {	65535 : f32a , 7 : charz// trailing space 
+,
+""{,}""
 //	t
 //x
-1 : As
-,} ,
-    chars , }
-    ,}
-")).
-Eval vm_compute in ("<<<M1333>>>" ++ check (runes_of_ascii "options {
-    LittleEndian = false;
-    ArrayPrefixLenType = u8;
-    FixedStringPadFromLeft = true;
-    FixedStringPadChar = '0';
-}
-packet Heartbeat {
-    string lastPx,
-    uint8 Qty,
-    i64 Acct,
-    char[4] Ref,
-}
-packet Fill {
-    uint8 Ref,
-    Heartbeat,
-    f32 OrderId,
-    repeat f32 x,
-}
-root packet Order {
-    zchar[2] OrderId,
-    zchar[2] Acct,
-    zchar[1] Note,
-    zchar[9] Qty,
-    string price,
-    string tag7,
-    u32 x,
-    match x as Body {
-        123 : Fill,
-        112 : Heartbeat,
-    },
-    u32 seqNo @calculatedFrom(""CRC32""),
-}
-")).
-Eval vm_compute in ("<<<M1781>>>" ++ check (runes_of_ascii "MetaData body {
-    T calculatedFrom,
-    string f32a `line1
-        line2`,
-    leftPad BodyLength `tab	here`,
-}
-
-options {
-}
-
-MetaData options1 {
-    char[3] MetaDataX `" ++ [28040; 24687; 31867; 22411]%N ++ runes_of_ascii "`,
-    BodyLength x `
-        `,
-    u16 tag `say ""hi""`,
-    u8 float,
-    float32 As `
-        `,
-    i8i8 Z9_ `
-        `,
-}
-
-packet u {
-    @tag(42)
-    options1 o `crlf
-        line`,
-    @calculatedFrom(""`tick`"")
-    repeat char[] a1,
-}
-
-options {
-    uint8x = true
-    A = 7;// packet A { u8 x, }
-    len = """ ++ [128512]%N ++ runes_of_ascii """
-}")).
-Eval vm_compute in ("<<<M1297>>>" ++ check (runes_of_ascii "packet A { // c2a
-  // c2b
-u8
-    // c3
-a ,
-    // c5
-} // c6a
-  // c6b
-packet B // c8
-{ // c9
-u16
-    // c10
-b // c11
-, // c12
-} // c13a
-  // c13b
-root // c14a
-  // c14b
-packet // c15a
-  // c15b
-P
-    // c16
-{ u8 // c18a
-  // c18b
-K // c19
-, match // c21
-K // c22a
-  // c22b
-as // c23
-M // c24
-{ // c25a
-  // c25b
-1 : // c27a
-  // c27b
-A // c28a
-  // c28b
-,
-    // c29
-1
-    // c30
-: B
-    // c32
-,
-    // c33
-} // c34a
-  // c34b
-,
-    // c35
-} ")).
-Eval vm_compute in ("<<<M1414>>>" ++ check (runes_of_ascii "packet Header {
-    match roots as packetx {
-        // `tick` ""quote"" 'q'
-        [0123456789, """ ++ [28040; 24687]%N ++ runes_of_ascii """] : packetx,
-        //
-        // c
-        4294967296 : Logon,
-        [""\n"", ""x y"", ""packet"", ""packet""] : i8i8,
-        42 : Foo,
-    },//	t
-    @calculatedFrom(""x y"")
-    f64 Logon,
-}
-
-options {
-    // " ++ [128512]%N ++ runes_of_ascii " emoji
-    chars = ' ';
-    repeatCount = """ ++ [233]%N ++ runes_of_ascii "t" ++ [233]%N ++ runes_of_ascii """
-    x = ""\n"";
-    calculatedFrom = ""`tick`"";
-}")).
-Eval vm_compute in ("<<<M1628>>>" ++ check (runes_of_ascii "packet a1 {
-    @calculatedFrom(""`tick`"")
-    uint32 charz `crlf
-        line`,
-    // c
-    //x
-    a1 `tab	here`,
-}
-
-options {
-    // " ++ [27880; 37322]%N ++ runes_of_ascii "
-    // " ++ [128512]%N ++ runes_of_ascii " emoji
-    stringy = 255;
-    metadata = 4294967296
-    pack = string;
-    crc = string;
-}
-
-root packet crc {
-    @tag(42)
-    @calculatedFrom(""abc"")
-    @rightPad('0')
-    u128 u8x,
-    @lengthOf(len)
-    uint16 int,
-}")).
-Eval vm_compute in ("<<<M127>>>" ++ check (runes_of_ascii "packet a1{ @leftPad ( ) float
-@lengthOf(
-uint8x ) , }
-packet Logon {
-char Logon
-@calculatedFrom( ""a\\"" )
-    ,T stringy ,
-//
-// c
-repeat uint8 stringy `two words` , } MetaData charz{ u
-    tag
-    `
-`
-, a1 falsey ,//x
-Z9_
-matchKey , f64 lengthOf	`a\` // @lengthOf(
-,
-    f32a roots
-    ``
-,float64
-    x_y_z // @lengthOf(
+: Header , 42
+    :a1 // packet A { u8 x, }
+, }
 , }
 ")).
-Eval vm_compute in ("<<<M1376>>>" ++ check (runes_of_ascii "options {
-    LittleEndian = true;
-}
-packet Logon {
-    u8 x,
-}
-packet Logout {
-    u16 reason,
-}
-root packet Frame {
-    i8 Kind,
-    i8 Kind2,
-    match Kind as Body {
-        1 : Logon,
-        [2, 3, 4] : Logout,
-        100 : Logon,
-    },
-    match Kind2 as Trailer {
-        0 : Logout,
-    },
-}
+Eval vm_compute in ("<<<M309>>>" ++ check (runes_of_ascii "packet
+    // `tick` ""quote"" 'q'
+    _x {//
+repeat zchar[ 1 ] metadata
+    ,@leftPad
+    ( ' ' ) @lengthOf( T )@lengthOf(
+Z9_ )
+    char[] As// @lengthOf(
+,string f32a  , }
 ")).
-Eval vm_compute in ("<<<M1450>>>" ++ check (runes_of_ascii "
-packet
-
-MDSnapshotZZ {	u8 a ,
-
-    }
-
-    packet OrderACK	{
-u16	b ,  }
-	packet  HTTPServerInfo{string
-s ,}
-    root
-
-packet
-
-FIXMsg
-{
-	u8
-KType 
-, MDSnapshotZZ ,
-
-    repeat OrderACK, match
-
-KType as
-Body
-
-{
-
-1	: HTTPServerInfo
-
+Eval vm_compute in ("<<<M431>>>" ++ check (runes_of_ascii "packet uint8x
+{ match pack
+    as msg_type	{
+    0123456789 0123456789 :	float
+}
 ,
-    2
-	:
-	OrderACK	, 
-} 
-, } ")).
-Eval vm_compute in ("<<<M139>>>" ++ check (runes_of_ascii "packet//x
-x_y_z {rootA @lengthOf( o ) `two words` ,} MetaData f32a{
-trueish
-    // packet A { u8 x, }
-    x , }
-    MetaData body
-    { u128 pack , f64
-    // @lengthOf(
-    float	, char[ 65535
-//	t
-/// triple
-] tag `" ++ [233]%N ++ runes_of_ascii "`// c
-,  } // " ++ [128512]%N ++ runes_of_ascii " emoji")).
-Eval vm_compute in ("<<<M1758>>>" ++ check (runes_of_ascii "  MetaData
-stringy {
-
-zchar[
-
-    10 ]
-
-    crc
-
-    ,  }
-    packet
-
-u128
-	{
-repeat
-	uint16 
-BodyLength `// not a comment`
-    , 
-@lengthOf(
-    falsey
-
-) _x , char[
-
-    42 ] i8i8
-
-    ,
-
-    }
-
+} packet //	t
+a1
+    { } options {packetx
+    = '\x00'	; u128= ""a	b""  ; }
 ")).
-Eval vm_compute in ("<<<M1881>>>" ++ check (runes_of_ascii "options {
-    Z9_ = ""packet"";
-    float = false;
-    A = ' '
-}
-
-MetaData pack {
-    zchar[3] leftPad,
-    zchar falsey `it's`,
-    char[] repeatCount,
-    char[65535] Z9_,
-}")).
-Eval vm_compute in ("<<<M224>>>" ++ check (runes_of_ascii "root packet
-T
-{ zchar[ // a // b
-0123456789
-] // c
-uint8x , }  root packet metadata { @rightPad( )  x_y_z @lengthOf( stringy )
-// `tick` ""quote"" 'q'
-// c
-, }")).
 Eval vm_compute in ("<<<M528>>>" ++ check (runes_of_ascii "packet uint8x
 { match pack
     as msg_type	{
@@ -723,7 +766,7 @@ a1
     { } options {packetx
     = '\x00'	; u128= ""a	b""  packet }
 ")).
-Eval vm_compute in ("<<<M471>>>" ++ check (runes_of_ascii "packet uint8x
+Eval vm_compute in ("<<<M488>>>" ++ check (runes_of_ascii "packet uint8x
 { match pack
     as msg_type	{
     0123456789 :	float
@@ -731,17 +774,46 @@ Eval vm_compute in ("<<<M471>>>" ++ check (runes_of_ascii "packet uint8x
 ,
 } packet //	t
 a1
-    { { } options {packetx
+    { } options i8 packetx
     = '\x00'	; u128= ""a	b""  ; }
 ")).
-Eval vm_compute in ("<<<M275>>>" ++ check (runes_of_ascii "MetaData
-stringy { zchar[10 ] crc,  }
-    packet u128
-{ repeat uint16  BodyLength `// not a comment`, @lengthOf( falsey ) _x ,
-char[ 42 ]  i8i8	, }
-
+Eval vm_compute in ("<<<M407>>>" ++ check (runes_of_ascii "packet uint8x
+{ pack match
+    as msg_type	{
+    0123456789 :	float
+}
+,
+} packet //	t
+a1
+    { } options {packetx
+    = '\x00'	; u128= ""a	b""  ; }
 ")).
-Eval vm_compute in ("<<<M532>>>" ++ check (runes_of_ascii "packet uint8x
+Eval vm_compute in ("<<<M1872>>>" ++ check (runes_of_ascii "  MetaData 
+leftPad { 
+chars  MetaDataX
+,	}
+packet repeatCount
+    {
+
+char[
+255
+	] 	 // c
+uint8x 
+`" ++ [233]%N ++ runes_of_ascii "`
+    ,
+}	MetaData  pack	{
+
+    As
+Foo , } ")).
+Eval vm_compute in ("<<<M698>>>" ++ check (runes_of_ascii "// @lengthOf(
+packet i8i8 { u128 o , }
+options { MetaDataX = true;
+    BodyLength =""packet"" x_y_z= 007
+crc //x
+= ""abc"" ;
+    msg_type =
+i16 i16 }")).
+Eval vm_compute in ("<<<M500>>>" ++ check (runes_of_ascii "packet uint8x
 { match pack
     as msg_type	{
     0123456789 :	float
@@ -750,191 +822,130 @@ Eval vm_compute in ("<<<M532>>>" ++ check (runes_of_ascii "packet uint8x
 } packet //	t
 a1
     { } options {packetx
-    = '\x00'	; u128= ""a	b""  ; )
+    = 	; u128= ""a	b""  ; }
 ")).
-Eval vm_compute in ("<<<M1778>>>" ++ check (runes_of_ascii "
-packet
-
-A
-
-    {
-Inner {match	k 
-as n
-    {
-[  1
+Eval vm_compute in ("<<<M1883>>>" ++ check (runes_of_ascii "MetaData
+	leftPad
+    { chars MetaDataX
 ,
-22, 007
+    }packet repeatCount
+	{ char[
+	// c
+  255]
 
-    ,
+    uint8x 
+`" ++ [233]%N ++ runes_of_ascii "`	, } MetaData
+	pack
 
-    4
-    ,	5,
+{	As
 
-66,7
-    , 8 ,
-
-9
-
-]
-
-:
-
-    B	,
-
-    },	} ,
-    }
+Foo 
+, }
 ")).
-Eval vm_compute in ("<<<M695>>>" ++ check (runes_of_ascii "// @lengthOf(
-packet i8i8 { u128 o , }
+Eval vm_compute in ("<<<M658>>>" ++ check (runes_of_ascii "// @lengthOf(
+ i8i8 { u128 o , }
 options { MetaDataX = true;
-    BodyLe@xngth =""packet"" x_y_z= 007
+    BodyLength =""packet"" x_y_z= 007
 crc //x
 = ""abc"" ;
     msg_type =
 i16 }")).
-Eval vm_compute in ("<<<M707>>>" ++ check (runes_of_ascii "// @lengthOf(
-packet i8i8 { u128 o , }
-options { MetaDataX = true;
-    BodyLength =MetaData x_y_z= 007
-crc //x
-= ""abc"" ;
-    msg_type =
-i16 }")).
-Eval vm_compute in ("<<<M1260>>>" ++ check (runes_of_ascii "
-
-  packet
-
-B
-    {
-
-u8
-	a
-
-,
-    }root
-packet
-P{ u8 K  , u8
-
-L @lengthOf(
-	Body )
-,  match
-
-K
-    as Body
-{
-
-    1  :  B
-	,  },
-    } ")).
-Eval vm_compute in ("<<<M16>>>" ++ check (runes_of_ascii "options { }MetaData u8x { uint8x	body`crlf
-line`
-    //	t
-    , calculatedFrom body ,
+Eval vm_compute in ("<<<M1608>>>" ++ check (runes_of_ascii "MetaData leftPad {
+    chars MetaDataX,
 }
-    options  {
-} root packet options1
-{  }")).
-Eval vm_compute in ("<<<M1847>>>" ++ check (runes_of_ascii "  packet A
-{ 
-match k as n
 
-    {
-
-[
-
-    ""a""
-    ,""bb""
-, ""c c"" ,
-
-""d""
-	,	""e""  ]
-    : B
-    ,
-
-    2:C
-
-    }
-
-,
-
-}
-")).
-Eval vm_compute in ("<<<M1145>>>" ++ check (runes_of_ascii "MetaData leftPad // c
-{ chars MetaDataX , } packet repeatCount { char[ 255 ] uint8x `" ++ [233]%N ++ runes_of_ascii "` , } MetaData pack { As Foo , }")).
-Eval vm_compute in ("<<<M1177>>>" ++ check (runes_of_ascii "MetaData leftPad { chars MetaDataX , } packet repeatCount { char[ 255 ] uint8x `" ++ [233]%N ++ runes_of_ascii "` , } MetaData // c
-pack { As Foo , }")).
-Eval vm_compute in ("<<<M1791>>>" ++ check (runes_of_ascii "
-
-  packet stringy{ }	// packet A { u8 x, }
-  	packet u128 
-{
-    u16
-    len @lengthOf(
-u128
-)	, 
-      //x
-	}
-")).
-Eval vm_compute in ("<<<M1586>>>" ++ check (runes_of_ascii "options
-	{_x  =	""`tick`""
-;  matchKey
-	=
-	""it's""
-    ; options1 = u16
-
-;
-stringy
-	=true
+packet repeatCount {
     // c
-      }
-")).
-Eval vm_compute in ("<<<M920>>>" ++ check (runes_of_ascii "packet A {
-    Inner {
-        u8 x `a
-b`,
-        Deep {
-            u8 y `a
-b`,
-        },
-    },
+    char[255] uint8x `" ++ [233]%N ++ runes_of_ascii "`,
+}
+
+MetaData pack {
+    As Foo,
 }")).
-Eval vm_compute in ("<<<M590>>>" ++ check (runes_of_ascii "
+Eval vm_compute in ("<<<M1194>>>" ++ check (runes_of_ascii "// top
+packet // c0
+body // c1
+{ // c2
+i32 // c3
+f32a // c4
+`{ , }` // c5
+, // c6
+} // c7
+options // c8
+{ // c9
+} // c10
+")).
+Eval vm_compute in ("<<<M1161>>>" ++ check (runes_of_ascii "MetaData leftPad { chars MetaDataX , } packet repeatCount { // c
+char[ 255 ] uint8x `" ++ [233]%N ++ runes_of_ascii "` , } MetaData pack { As Foo , }")).
+Eval vm_compute in ("<<<M906>>>" ++ check (runes_of_ascii "packet A {
+  match k as n {
+    [""a"", ""bb"", ""c c"", ""d"", ""e"", ""f"", ""g"", ""h"", ""i"", ""j"", ""k"", ""l""] : B,
+    2 : C
+  },
+}")).
+Eval vm_compute in ("<<<M925>>>" ++ check (runes_of_ascii "packet A {
+    u16 len @lengthOf(body) `a
+b`,
+    u32 crc @calculatedFrom(""CRC32"") `a
+b`,
+    string body,
+}")).
+Eval vm_compute in ("<<<M1554>>>" ++ check (runes_of_ascii "packet u128 {
+    @calculatedFrom(""x y"")
+    @rightPad(' ')
+    char[42] Header @calculatedFrom(""abc""),
+}")).
+Eval vm_compute in ("<<<M896>>>" ++ check (runes_of_ascii "packet A {
+  match k as n {
+    [1, ""bb"", 007, ""d"", 5, ""f"", 7, ""h"", 9, ""j"", 11] : B
+    2 : C
+  },
+}")).
+Eval vm_compute in ("<<<M883>>>" ++ check (runes_of_ascii "packet A {
+  match k as n {
+    [1, ""bb"", 007, ""d"", 5, ""f"", 7, ""h"", 9, ""j""] : B
+    2 : C
+  },
+}")).
+Eval vm_compute in ("<<<M580>>>" ++ check (runes_of_ascii "
 packet
-    asx {match u128 as lengthOf
-MetaData
+    asx {match u128 char[ lengthOf
+{
 //	t
 // `tick` ""quote"" 'q'
 255 : x ,
     } ,	}")).
-Eval vm_compute in ("<<<M891>>>" ++ check (runes_of_ascii "packet A {
+Eval vm_compute in ("<<<M636>>>" ++ check (runes_of_ascii "
+packet
+    asx {match u128 as lengthOf
+{
+//	t
+// `ti/ck` ""quote"" 'q'
+255 : x ,
+    } ,	}")).
+Eval vm_compute in ("<<<M575>>>" ++ check (runes_of_ascii "
+packet
+    asx {match u64 as lengthOf
+{
+//	t
+// `tick` ""quote"" 'q'
+255 : x ,
+    } ,	}")).
+Eval vm_compute in ("<<<M570>>>" ++ check (runes_of_ascii "
+packet
+    asx {{ u128 as lengthOf
+{
+//	t
+// `tick` ""quote"" 'q'
+255 : x ,
+    } ,	}")).
+Eval vm_compute in ("<<<M815>>>" ++ check (runes_of_ascii "packet A {
   match k as n {
-    [1, 22, 007, 4, 5, 66, 7, 8, 9, 10, 11] : B,
+    [""a"", ""bb"", ""c c"", ""d"", ""e""] : B,
     2 : C
   },
 }")).
-Eval vm_compute in ("<<<M388>>>" ++ check (runes_of_ascii "root packet SimpleMessage {
-    uint16 MsgType `" ++ [28040; 24687; 31867; 22411]%N ++ runes_of_ascii "`,
-    string JsonBody `Json" ++ [23383; 31526; 20018; 28040; 24687; 20307]%N ++ runes_of_ascii "`,
-}")).
-Eval vm_compute in ("<<<M874>>>" ++ check (runes_of_ascii "packet A {
-  match k as n {
-    [1, 22, ""c c"", 4, 5, ""f"", 7, 8, ""i""] : B
-    2 : C
-  },
-}")).
-Eval vm_compute in ("<<<M846>>>" ++ check (runes_of_ascii "packet A {
-  match k as n {
-    [""a"", 22, ""c c"", 4, ""e"", 66, ""g""] : B
-    2 : C
-  },
-}")).
-Eval vm_compute in ("<<<M966>>>" ++ check (runes_of_ascii "packet A {
-    u32 crc @calculatedFrom(""x\
-y""),
-    @calculatedFrom(""x\
-y"") u8 y,
-}")).
-Eval vm_compute in ("<<<M1512>>>" ++ check (runes_of_ascii "packet Inner {
+Eval vm_compute in ("<<<M1886>>>" ++ check (runes_of_ascii "packet Inner {
     u8 a,
 }
 
@@ -942,101 +953,82 @@ root packet P {
     repeat Inner items,
     u8 x,
 }")).
-Eval vm_compute in ("<<<M810>>>" ++ check (runes_of_ascii "packet A {
+Eval vm_compute in ("<<<M345>>>" ++ check (runes_of_ascii "
+options
+{ } // " ++ [128512]%N ++ runes_of_ascii " emoji
+options { float // `tick` ""quote"" 'q'
+=	65535 }
+")).
+Eval vm_compute in ("<<<M790>>>" ++ check (runes_of_ascii "packet A {
   match k as n {
-    [""a"", ""bb"", 007, ""d""] : B,
+    [""a"", ""bb"", ""c c""] : B
     2 : C
   },
 }")).
-Eval vm_compute in ("<<<M1807>>>" ++ check (runes_of_ascii "packet
-
-    body 
-	    // c
-
-	{
-
-i32 
-f32a
-
-`{ , }`	, 
-}options{
-	} ")).
-Eval vm_compute in ("<<<M1815>>>" ++ check (runes_of_ascii "
-
-  MetaData
-
-    M{
-
-u8 x
-`a
-    b
-  c`
-, T
-
-t `a
-    b
-  c`, }
-")).
-Eval vm_compute in ("<<<M365>>>" ++ check (runes_of_ascii "MetaData x_y_z { i8i8 u8x , string	uint8x
-    `crlf
-line` , }")).
-Eval vm_compute in ("<<<M1255>>>" ++ check (runes_of_ascii "root packet P {
-    hdr {
-        u8 a,
-    },
-    u8 x,
+Eval vm_compute in ("<<<M924>>>" ++ check (runes_of_ascii "packet A {
+    B b `a
+b`,
+    B `a
+b`,
+    repeat B bs `a
+b`,
+}")).
+Eval vm_compute in ("<<<M785>>>" ++ check (runes_of_ascii "packet A {
+  match k as n {
+    [""a"", 22] : B
+    2 : C
+  },
+}")).
+Eval vm_compute in ("<<<M1525>>>" ++ check (runes_of_ascii "root packet string_ {
+    char[] matchKey,
 }
+
+packet x {
+}")).
+Eval vm_compute in ("<<<M1632>>>" ++ check (runes_of_ascii "root packet x {
+    roots @calculatedFrom(""a\""b""),
+}")).
+Eval vm_compute in ("<<<M333>>>" ++ check (runes_of_ascii "  MetaData
+x_y_z{ }	packet chars	{	} options {}
 ")).
-Eval vm_compute in ("<<<M1772>>>" ++ check (runes_of_ascii "MetaData M {
+Eval vm_compute in ("<<<M951>>>" ++ check (runes_of_ascii "MetaData M {
+    u8 x `x
+`,
+    T t `x
+`,
+}")).
+Eval vm_compute in ("<<<M1400>>>" ++ check (runes_of_ascii "root packet A {
+    u8 x `
+        `,
+}")).
+Eval vm_compute in ("<<<M928>>>" ++ check (runes_of_ascii "root packet A {
     u8 x `a
-    b`,
-    T t `a
-    b`,
+b`,
 }")).
-Eval vm_compute in ("<<<M181>>>" ++ check (runes_of_ascii "options{ packetx=// " ++ [27880; 37322]%N ++ runes_of_ascii "
-string Logon // " ++ [27880; 37322]%N ++ runes_of_ascii "
-=  int8}")).
-Eval vm_compute in ("<<<M1587>>>" ++ check (runes_of_ascii "options {
-    a = ""\
-    "";
-    b = ""\
-    ""
+Eval vm_compute in ("<<<M276>>>" ++ check (runes_of_ascii "MetaData repeatCount { }
+//	t
+")).
+Eval vm_compute in ("<<<M1647>>>" ++ check (runes_of_ascii "
+
+  packet  A {
+}// a
+// b
+")).
+Eval vm_compute in ("<<<M1496>>>" ++ check (runes_of_ascii "MetaData
+u
+
+// c
+	{ } ")).
+Eval vm_compute in ("<<<M1724>>>" ++ check (runes_of_ascii "// top
+MetaData u {
 }")).
-Eval vm_compute in ("<<<M1546>>>" ++ check (runes_of_ascii "
-// `tick` ""quote"" 'q'
-  options
-
-{ }
-
+Eval vm_compute in ("<<<M278>>>" ++ check (runes_of_ascii "packet Packet { }
 ")).
-Eval vm_compute in ("<<<M132>>>" ++ check (runes_of_ascii "options
-    { Foo = 0123456789
-; }")).
-Eval vm_compute in ("<<<M1522>>>" ++ check (runes_of_ascii "options 
-{
-
-Packet
-=char[] }
-
-")).
-Eval vm_compute in ("<<<M1077>>>" ++ check (runes_of_ascii "MetaData M {
-}// c
-options {}")).
-Eval vm_compute in ("<<<M1496>>>" ++ check (runes_of_ascii "
-packet 
-A {  }// c" ++ [11]%N ++ runes_of_ascii "
- 
-")).
-Eval vm_compute in ("<<<M1069>>>" ++ check (runes_of_ascii "// a// bpacket A {}")).
-Eval vm_compute in ("<<<M1132>>>" ++ check (runes_of_ascii "MetaData u // c
-{ }")).
-Eval vm_compute in ("<<<M1032>>>" ++ check (runes_of_ascii "// c" ++ [11]%N ++ runes_of_ascii "
+Eval vm_compute in ("<<<M1052>>>" ++ check (runes_of_ascii "// c" ++ [65279]%N ++ runes_of_ascii "
 packet A {
 }")).
-Eval vm_compute in ("<<<M1019>>>" ++ check (runes_of_ascii "packet A {
-}// c" ++ [8239]%N)).
-Eval vm_compute in ("<<<M626>>>" ++ check (runes_of_ascii "
-packet
-    as")).
+Eval vm_compute in ("<<<M1082>>>" ++ check (runes_of_ascii "options { // a
+ }")).
+Eval vm_compute in ("<<<M404>>>" ++ check (runes_of_ascii "packet uint8x")).
 Eval vm_compute in ("<<<M995>>>" ++ check (runes_of_ascii "// c" ++ [5760]%N)).
-Eval vm_compute in ("<<<M734>>>" ++ check ([65279]%N)).
+Eval vm_compute in ("<<<M725>>>" ++ check (runes_of_ascii " ")).
